@@ -115,7 +115,7 @@ def gen_history(rng, tier, ity, big=False):
             return f64hex(v / 2.0 if rng.random() < 0.5 else float(v))
         return str(v)
 
-    nops = rng.choice([15, 40, 80, 150]) if tier == "quick" else rng.choice([40, 150, 400, 800])
+    nops = rng.choice([20, 60, 120, 250]) if tier == "quick" else rng.choice([40, 150, 400, 800])
     if big:
         nops = 5200
     order = rng.choice(["uniform", "skewed", "distinct-ones", "heavy-first", "heavy-late", "ascending", "mixed"])
@@ -133,10 +133,10 @@ def gen_history(rng, tier, ity, big=False):
         ql = []
         sub = items if len(items) <= 200 else rng.sample(items, 150) + heavy
         ql.append("q %d %s" % (s, " ".join(sub + strangers)))
-        if rng.random() < 0.7:
+        if rng.random() < 0.4:
             for et in ("nfn", "nfp"):
                 for t in ("t0", "thalf", "toff", "t2off", "tdef"):
-                    if rng.random() < 0.6:
+                    if rng.random() < 0.5:
                         ql.append("fi %d %s %s" % (s, et, t))
             if rng.random() < 0.3:
                 ql.append("fi %d %s %s" % (s, rng.choice(["nfn", "nfp"]), rw("small")))
@@ -167,12 +167,12 @@ def gen_history(rng, tier, ity, big=False):
                 wt = w.fmt(0)
             if rng.random() < 0.02 and wty != "u64":
                 wt = rng.choice(["-1", "-5"]) if wty == "i64" else rng.choice(["bff0000000000000", "7ff8000000000000", "7ff0000000000000"])
-            h.append("upd %d %s %s" % (s, it, wt))
+            h.append("%s %d %s %s" % ("updmv" if rng.random() < 0.25 else "upd", s, it, wt))
         elif r < 0.95 and len(live) > 1 and nmerge[0] < 9:
             nmerge[0] += 1
             d = rng.choice(live)
             src = rng.choice(live) if rng.random() < 0.1 else rng.choice([x for x in live if x != d])
-            h.append("merge %d %d" % (d, src))
+            h.append("%s %d %d" % ("mergemv" if rng.random() < 0.3 else "merge", d, src))
             h += qlines(d)
         elif r < 0.98 and nxt < 9:
             h.append("ser %d %d %s" % (s, nxt, rng.choice(["bytes", "stream"])))
@@ -197,11 +197,16 @@ def gen_history(rng, tier, ity, big=False):
     return h
 
 
+def canon_op(w):
+    """rvalue overloads are the same operation for oracle and hints"""
+    return {"updmv": "upd", "mergemv": "merge"}.get(w[0], w[0]) if w else ""
+
+
 def strip_hint(line):
     w = line.split()
-    if w and w[0] == "upd":
+    if canon_op(w) == "upd":
         return " ".join(w[:4])
-    if w and w[0] == "merge":
+    if canon_op(w) == "merge":
         return " ".join(w[:3])
     return line
 
@@ -220,16 +225,26 @@ def annotate(hist, impl_out, stop_at_opaque_merge=False):
         o = impl_out[i].split()
         if w[0] == "new" and o and o[0] == "S":
             sid = int(w[1]); wt[sid] = W(w[2]); off[sid] = Fraction(0); nact[sid] = 0; tot[sid] = Fraction(0)
-        elif w[0] in ("upd", "merge") and o and o[0] == "S" and int(w[1]) in wt:
+        elif canon_op(w) in ("upd", "merge") and o and o[0] == "S" and int(w[1]) in wt:
             sid = int(w[1]); ww = wt[sid]
             new = ww.val(o[2])
             d = new - off[sid]
-            if w[0] == "merge" and stop_at_opaque_merge:
+            if canon_op(w) == "merge" and stop_at_opaque_merge:
                 src = int(w[2])
                 if src in off and nact.get(src, 0) > 0 and d != off[src]:
                     break
             if d > 0:
                 l = l + " " + ww.fmt(d)
+                if canon_op(w) == "merge":
+                    # the individual purge amounts inside a merge are not observable: also pass num_active and, when the
+                    # next line queries every active item, the sum of all lower bounds (model: sum of its counters)
+                    l += " " + o[3]
+                    if i + 1 < len(hist) and i + 1 < len(impl_out):
+                        nw, no = hist[i + 1].split(), impl_out[i + 1].split()
+                        if nw[:2] == ["q", w[1]] and no and no[0] == "Q" and len(no) == len(nw) + 3:
+                            lbs = [ww.val(c.split(":")[1]) for c in no[5:]]
+                            if sum(1 for x in lbs if x > 0) == int(o[3]):
+                                l += " " + ww.fmt(sum(lbs))
             off[sid] = new; nact[sid] = int(o[3]); tot[sid] = ww.val(o[1])
         elif w[0] == "ser" and o and o[0] == "S" and int(w[1]) in wt:
             nid = int(w[2]); wt[nid] = wt[int(w[1])]
@@ -270,7 +285,7 @@ def oracle(hist, impl_out):
         w = l.split()
         out = impl_out[i]
         o = out.split()
-        op = w[0]
+        op = canon_op(w)
         if op == "new":
             if out.strip() == "throw":
                 if int(w[5]) <= int(w[4]):
@@ -429,7 +444,7 @@ def nontrivial(hist, impl_out):
     purged = False
     for l, o in zip(hist, impl_out):
         w, ow = l.split(), o.split()
-        if ow and ow[0] == "S" and w[0] in ("new", "upd", "merge"):
+        if ow and ow[0] == "S" and canon_op(w) in ("new", "upd", "merge"):
             fin[w[1]] = tuple(ow[1:4])
             if ow[2] not in ("0", "0000000000000000"):
                 purged = True
@@ -485,7 +500,7 @@ class StrOraclePart(FiPart):
 
 class C12(Spec):
     pid = "C12"
-    props_modules = ["DSProofs.Props.C12"]
+    props_modules = ["DSProofs.Props.C12", "DSProofs.Props.C12Gen"]
     harness = "fi_h"
     model_exe = "dsmodel_fi"
     family = "fi"
